@@ -243,10 +243,12 @@ def _alto_case(item):
         xml = p.to_altoxml_string()
         root = ET.fromstring(xml.encode("utf-8"))
         strings = list(root.iter("{*}String"))
-        wcs = [float(e.get("WC")) for e in strings if e.get("WC") is not None]
-        if len(wcs) != len(strings) or [e.get("CONTENT") for e in strings] != text.split():
-            rec["outcome"] = "alto-words-unexpected"
-            return rec
+        if [e.get("CONTENT") for e in strings] == text.split():
+            keep = [j for j, e in enumerate(strings) if e.get("WC") is not None]
+        else:       # how the export cuts words is C06's business: only the line confidence is judged then
+            keep = []
+        wcs = [float(strings[j].get("WC")) for j in keep]
+        rec["words"] = [words[j] for j in keep]
         lconf = float(line.transcription_confidence)
         rec["wc"] = [_m6(x) for x in wcs]
         rec["lconf"] = _m6(lconf)
@@ -269,10 +271,11 @@ def execute_lines(c, items):
     return pmap(_line_case, items, procs=6)
 
 
-def judge(ctx, c, traces, what_of):
+def judge(ctx, c, traces, what_of, name=None):
+    name = name or _lab(c)
     consts = consts_of(c, strict=False)
     acc, rej = ctx.validate("Confidence_Trace", traces, constants=consts, shards=min(8, max(1, len(traces) // 300)),
-                            label="Confidence_Trace (property clauses) " + _lab(c))
+                            label="Confidence_Trace (property clauses) " + name)
     bad = {idx for idx, _ in rej}
     for idx, clause in rej:
         tr = traces[idx]
@@ -282,7 +285,7 @@ def judge(ctx, c, traces, what_of):
     good = [tr for i, tr in enumerate(traces) if i not in bad]
     before = ctx.traces_validated
     acc2, rej2 = ctx.validate("Confidence_Trace", good, constants=consts_of(c, strict=True),
-                              shards=min(8, max(1, len(good) // 300)), label="Confidence_Trace (exact values, drift only) " + _lab(c))
+                              shards=min(8, max(1, len(good) // 300)), label="Confidence_Trace (exact values, drift only) " + name)
     ctx.traces_validated = before
     for idx, clause in rej2:
         ctx.model_drift("exact-value clause %d: %s" % (clause, CLAUSES.get(clause, "?")), 1, {"cfg": _lab(c), "trace": good[idx]})
@@ -348,14 +351,14 @@ def run(ctx):
     for tr in traces:
         ctx.count(1, ("bag", tuple(tr["v"]), tuple(tr["lm"]), tr["scale"], tr["has_lm"]) if len(tr["v"]) > 1 else None)
     ctx.sample({"config": "bag", "trace": traces[len(traces) // 2]}, limit=6)
-    judge(ctx, c, traces, _what_bag)
+    judge(ctx, c, traces, _what_bag, "bags of hypotheses")
     # word and line confidences as reported by the ALTO export
     items = [(cs, (ctx.seed % 1000) * 1000000 + i) for i, cs in enumerate(alto_cases(ctx.rng, 120 if ctx.tier == "quick" else 800))]
     traces = pmap(_alto_case, items, procs=6)
     for tr in traces:
         ctx.count(1, ("alto", tr["text"], tuple(tr["combo"])) if any(0 < x < 8 for x in tr["nums"]) else None)
     ctx.sample({"config": "alto", "trace": traces[len(traces) // 2]}, limit=7)
-    judge(ctx, c, traces, _what_alto)
+    judge(ctx, c, traces, _what_alto, "ALTO word/line confidences")
     ctx.notes["explanation"] = ("TLC exhaustive on Confidence (exact rationals; invariants %s) per config; each initial state rendered as sparse logits "
                                 "twice (two different per-frame constants) and evaluated by get_line_confidence (CTC and transformer branch), "
                                 "get_letter_confidence, PageParser.compute_line_confidence, line_confident_enough; bags by BagOfHypotheses; "
